@@ -207,23 +207,26 @@ func (c *Cat) WithEnc(ctx context.Context, e Enc, x int) (string, error) {
 	c.in("WithEnc", e, x)
 	return catOut[string](c, "WithEnc")
 }
-func (c *Cat) RU64() (uint64, error)             { c.in("RU64"); return catOut[uint64](c, "RU64") }
-func (c *Cat) RF64() (float64, error)            { c.in("RF64"); return catOut[float64](c, "RF64") }
-func (c *Cat) RF32() (float32, error)            { c.in("RF32"); return catOut[float32](c, "RF32") }
-func (c *Cat) RBytes() ([]byte, error)           { c.in("RBytes"); return catOut[[]byte](c, "RBytes") }
-func (c *Cat) RSlice() ([]int, error)            { c.in("RSlice"); return catOut[[]int](c, "RSlice") }
-func (c *Cat) RMap() (map[string]int, error)     { c.in("RMap"); return catOut[map[string]int](c, "RMap") }
-func (c *Cat) REmb() (Emb, error)                { c.in("REmb"); return catOut[Emb](c, "REmb") }
-func (c *Cat) RTg() (Tg, error)                  { c.in("RTg"); return catOut[Tg](c, "RTg") }
-func (c *Cat) RTgP() (*Tg, error)                { c.in("RTgP"); return catOut[*Tg](c, "RTgP") }
-func (c *Cat) RRaw() (json.RawMessage, error)    { c.in("RRaw"); return catOut[json.RawMessage](c, "RRaw") }
-func (c *Cat) RArr() ([3]int, error)             { c.in("RArr"); return catOut[[3]int](c, "RArr") }
-func (c *Cat) RCJ() (CJ, error)                  { c.in("RCJ"); return catOut[CJ](c, "RCJ") }
-func (c *Cat) RCJs() ([]*CJ, error)              { c.in("RCJs"); return catOut[[]*CJ](c, "RCJs") }
-func (c *Cat) RBool() (bool, error)              { c.in("RBool"); return catOut[bool](c, "RBool") }
-func (c *Cat) RMyInt() (MyInt, error)            { c.in("RMyInt"); return catOut[MyInt](c, "RMyInt") }
-func (c *Cat) RAnyS() ([]interface{}, error)     { c.in("RAnyS"); return catOut[[]interface{}](c, "RAnyS") }
-func (c *Cat) RValOnly() string                  { c.in("RValOnly"); v, _ := catOut[string](c, "RValOnly"); return v }
+func (c *Cat) RU64() (uint64, error)         { c.in("RU64"); return catOut[uint64](c, "RU64") }
+func (c *Cat) RF64() (float64, error)        { c.in("RF64"); return catOut[float64](c, "RF64") }
+func (c *Cat) RF32() (float32, error)        { c.in("RF32"); return catOut[float32](c, "RF32") }
+func (c *Cat) RBytes() ([]byte, error)       { c.in("RBytes"); return catOut[[]byte](c, "RBytes") }
+func (c *Cat) RSlice() ([]int, error)        { c.in("RSlice"); return catOut[[]int](c, "RSlice") }
+func (c *Cat) RMap() (map[string]int, error) { c.in("RMap"); return catOut[map[string]int](c, "RMap") }
+func (c *Cat) REmb() (Emb, error)            { c.in("REmb"); return catOut[Emb](c, "REmb") }
+func (c *Cat) RTg() (Tg, error)              { c.in("RTg"); return catOut[Tg](c, "RTg") }
+func (c *Cat) RTgP() (*Tg, error)            { c.in("RTgP"); return catOut[*Tg](c, "RTgP") }
+func (c *Cat) RRaw() (json.RawMessage, error) {
+	c.in("RRaw")
+	return catOut[json.RawMessage](c, "RRaw")
+}
+func (c *Cat) RArr() ([3]int, error)         { c.in("RArr"); return catOut[[3]int](c, "RArr") }
+func (c *Cat) RCJ() (CJ, error)              { c.in("RCJ"); return catOut[CJ](c, "RCJ") }
+func (c *Cat) RCJs() ([]*CJ, error)          { c.in("RCJs"); return catOut[[]*CJ](c, "RCJs") }
+func (c *Cat) RBool() (bool, error)          { c.in("RBool"); return catOut[bool](c, "RBool") }
+func (c *Cat) RMyInt() (MyInt, error)        { c.in("RMyInt"); return catOut[MyInt](c, "RMyInt") }
+func (c *Cat) RAnyS() ([]interface{}, error) { c.in("RAnyS"); return catOut[[]interface{}](c, "RAnyS") }
+func (c *Cat) RValOnly() string              { c.in("RValOnly"); v, _ := catOut[string](c, "RValOnly"); return v }
 func (c *Cat) RStrP(ctx context.Context) (*string, error) {
 	c.in("RStrP")
 	return catOut[*string](c, "RStrP")
